@@ -116,8 +116,8 @@ type sim struct {
 	modelRev    map[uint64]uint64 // id -> revision of the latest user write
 	r2done      map[uint64]uint64 // id -> payload for which the second reconciler set Done
 	extra       []*extraRec       // further real reconcilers
-	waiters     sync.WaitGroup
-	spinAtStore atomic.Bool // the next commit of the main goroutine triggers a reconciler round between its root store and its notifications
+	waiters     *sync.WaitGroup   // its own heap object: under synctest (Go 1.25.0) a WaitGroup inside a larger object was reported as used from two bubbles after the memory was reused
+	spinAtStore atomic.Bool       // the next commit of the main goroutine triggers a reconciler round between its root store and its notifications
 	logMu       sync.Mutex
 	gateMu      sync.Mutex
 	gate        chan struct{}   // non-nil while a user transaction holds the table lock across virtual time
@@ -1048,7 +1048,7 @@ func Run(t *testing.T, r *vkit.Run, idx int, cfg Config) {
 	defer stop()
 	synctest.Test(t, func(t *testing.T) {
 		s := &sim{r: r, idx: idx, rng: r.Rand(idx), opRng: r.Rand(idx, 7), cfg: cfg, fp: vkit.NewHash(), target: map[uint64]uint64{}, model: map[uint64]uint64{},
-			modelRev: map[uint64]uint64{}, r2done: map[uint64]uint64{}, t0: time.Now(), inflight: map[uint64]bool{}, unset: map[uint64]bool{}, everSeen: map[uint64]bool{}}
+			modelRev: map[uint64]uint64{}, r2done: map[uint64]uint64{}, t0: time.Now(), inflight: map[uint64]bool{}, unset: map[uint64]bool{}, everSeen: map[uint64]bool{}, waiters: new(sync.WaitGroup)}
 		if cfg.HoldLock {
 			// installed before anything of this run can request a table lock
 			s.mainGID = goid()
